@@ -2,6 +2,247 @@
    when the model was last validated against the code). Compared with the regenerated VGen.SkelC02 in VProps/PinC02.lean. -/
 namespace VPins.C02
 
+def json_EventJSONs_TrustedEvents : List String := [
+  "func func(roomVersion RoomVersion, redacted bool) []PDU",
+  "verImpl, err := GetRoomVersion(roomVersion)",
+  "if err != nil {",
+  "return nil",
+  "}",
+  "events := make([]PDU, 0, len(e))",
+  "for _, js := range e {",
+  "event, err := verImpl.NewEventFromTrustedJSON(js, redacted)",
+  "if err != nil {",
+  "continue",
+  "}",
+  "events = append(events, event)",
+  "}",
+  "return events"
+]
+
+def json_EventJSONs_UntrustedEvents : List String := [
+  "func func(roomVersion RoomVersion) []PDU",
+  "verImpl, err := GetRoomVersion(roomVersion)",
+  "if err != nil {",
+  "return nil",
+  "}",
+  "events := make([]PDU, 0, len(e))",
+  "for _, js := range e {",
+  "event, err := verImpl.NewEventFromUntrustedJSON(js)",
+  "switch e := err.(type) { case EventValidationError: if !e.Persistable { continue } case nil: default: continue }",
+  "if event == nil {",
+  "continue",
+  "}",
+  "events = append(events, event)",
+  "}",
+  "return events"
+]
+
+def json__CanonicalJSON : List String := [
+  "func func(input []byte) ([]byte, error)",
+  "if !gjson.Valid(string(input)) {",
+  "return nil, BadJSONError{errors.New(\"gjson validation failed\")}",
+  "}",
+  "return CanonicalJSONAssumeValid(input), nil"
+]
+
+def json__CanonicalJSONAssumeValid : List String := [
+  "func func(input []byte) []byte",
+  "input = CompactJSON(input, make([]byte, 0, len(input)))",
+  "return SortJSON(input, make([]byte, 0, len(input)))"
+]
+
+def json__CompactJSON : List String := [
+  "func func(input, output []byte) []byte",
+  "var i int",
+  "for ; i < len(input);  {",
+  "c := input[i]",
+  "i++",
+  "if c <= ' ' {",
+  "continue",
+  "}",
+  "if c == '-' && isNegativeZeroLiteral(input, i) {",
+  "continue",
+  "}",
+  "output = append(output, c)",
+  "if c == '\"' {",
+  "for ; i < len(input);  {",
+  "c = input[i]",
+  "i++",
+  "if c == '\\\\' {",
+  "escape := input[i]",
+  "i++",
+  "if escape == 'u' {",
+  "output, i = compactUnicodeEscape(input, output, i)",
+  "} else if escape == '/' {",
+  "output = append(output, escape)",
+  "} else {",
+  "output = append(output, '\\\\', escape)",
+  "}",
+  "} else {",
+  "output = append(output, c)",
+  "}",
+  "if c == '\"' {",
+  "break",
+  "}",
+  "}",
+  "}",
+  "}",
+  "return output"
+]
+
+def json__EnforcedCanonicalJSON : List String := [
+  "func func(input []byte, roomVersion RoomVersion) ([]byte, error)",
+  "roomVersionImpl, err := GetRoomVersion(roomVersion)",
+  "if err != nil {",
+  "return nil, err",
+  "}",
+  "if err := roomVersionImpl.CheckCanonicalJSON(input); err != nil {",
+  "return nil, BadJSONError{err}",
+  "}",
+  "return CanonicalJSON(input)"
+]
+
+def json__NewEventJSONsFromEvents : List String := [
+  "func func(he []PDU) EventJSONs",
+  "events := make(EventJSONs, len(he))",
+  "for i := range he {",
+  "events[i] = he[i].JSON()",
+  "}",
+  "return events"
+]
+
+def json__SortJSON : List String := [
+  "func func(input, output []byte) []byte",
+  "result := gjson.ParseBytes(input)",
+  "return sortJSONValue(result, output)"
+]
+
+def json__compactUnicodeEscape : List String := [
+  "func func(input, output []byte, index int) ([]byte, int)",
+  "appendUTF8 := func(c rune) { var buffer [4]byte n := utf8.EncodeRune(buffer[:], c) output = append(output, buffer[:n]...) }",
+  "const ( ESCAPES = \"uuuuuuuubtnufruuuuuuuuuuuuuuuuuu\" HEX = \"0123456789abcdef\" )",
+  "if len(input)-index < 4 {",
+  "return output, len(input)",
+  "}",
+  "c := readHexDigits(input[index : index+4])",
+  "index += 4",
+  "if c < ' ' {",
+  "escape := ESCAPES[c]",
+  "output = append(output, '\\\\', escape)",
+  "if escape == 'u' {",
+  "output = append(output, '0', '0', byte('0'+(c>>4)), HEX[c&0xF])",
+  "}",
+  "} else if c == '\\\\' || c == '\"' {",
+  "output = append(output, '\\\\', byte(c))",
+  "} else if utf16.IsSurrogate(c) {",
+  "if input[index] != '\\\\' || input[index+1] != 'u' {",
+  "return output, index",
+  "}",
+  "index += 2",
+  "if len(input)-index < 4 {",
+  "return output, index",
+  "}",
+  "c2 := readHexDigits(input[index : index+4])",
+  "index += 4",
+  "appendUTF8(utf16.DecodeRune(c, c2))",
+  "} else {",
+  "appendUTF8(c)",
+  "}",
+  "return output, index"
+]
+
+def json__isNegativeZeroLiteral : List String := [
+  "func func(input []byte, i int) bool",
+  "if i >= len(input) || input[i] != '0' {",
+  "return false",
+  "}",
+  "if i+1 < len(input) && (input[i+1] == '.' || input[i+1] == 'e' || input[i+1] == 'E') {",
+  "return false",
+  "}",
+  "if i >= 2 && (input[i-2] == 'e' || input[i-2] == 'E') {",
+  "return false",
+  "}",
+  "return true"
+]
+
+def json__noVerifyCanonicalJSON : List String := [
+  "func func(input []byte) error",
+  "return nil"
+]
+
+def json__readHexDigits : List String := [
+  "func func(input []byte) rune",
+  "hex := binary.BigEndian.Uint32(input)",
+  "hex -= 0x30303030",
+  "hex &= 0x1F1F1F1F",
+  "mask := hex & 0x10101010",
+  "hex -= mask >> 1",
+  "hex += mask >> 4",
+  "hex |= hex >> 4",
+  "hex &= 0xFF00FF",
+  "hex |= hex >> 8",
+  "return rune(hex & 0xFFFF)"
+]
+
+def json__sortJSONArray : List String := [
+  "func func(input gjson.Result, output []byte) []byte",
+  "sep := byte('[')",
+  "input.ForEach(func(_, value gjson.Result) bool { output = append(output, sep) sep = ',' output = sortJSONValue(value, output) return true })",
+  "if sep == '[' {",
+  "output = append(output, '[', ']')",
+  "} else {",
+  "output = append(output, ']')",
+  "}",
+  "return output"
+]
+
+def json__sortJSONObject : List String := [
+  "func func(input gjson.Result, output []byte) []byte",
+  "type entry struct { key string raw string value gjson.Result }// The parsed key string // The raw (still escaped, quoted) key as it appears in the input",
+  "var _entries [128]entry",
+  "entries := _entries[:0]",
+  "input.ForEach(func(key, value gjson.Result) bool { entries = append(entries, entry{key: key.String(), raw: key.Raw, value: value}) return true })",
+  "slices.SortFunc(entries, func(a, b entry) int { return strings.Compare(a.key, b.key) })",
+  "sep := byte('{')",
+  "for _, entry := range entries {",
+  "output = append(output, sep)",
+  "sep = ','",
+  "output = append(output, entry.raw...)",
+  "output = append(output, ':')",
+  "output = sortJSONValue(entry.value, output)",
+  "}",
+  "if sep == '{' {",
+  "output = append(output, '{', '}')",
+  "} else {",
+  "output = append(output, '}')",
+  "}",
+  "return output"
+]
+
+def json__sortJSONValue : List String := [
+  "func func(input gjson.Result, output []byte) []byte",
+  "if input.IsArray() {",
+  "return sortJSONArray(input, output)",
+  "}",
+  "if input.IsObject() {",
+  "return sortJSONObject(input, output)",
+  "}",
+  "return append(output, input.Raw...)"
+]
+
+def json__verifyEnforcedCanonicalJSON : List String := [
+  "func func(input []byte) error",
+  "valid := true",
+  "res := gjson.ParseBytes(input)",
+  "var iter func(key, value gjson.Result) bool",
+  "iter = func(_, value gjson.Result) bool { if value.IsArray() || value.IsObject() { value.ForEach(iter) return true } if value.Num < -9007199254740991 || value.Num > 9007199254740991 { valid = false return false } if value.Type == gjson.Number && strings.ContainsAny(value.Raw, \".eE\") { valid = false return false } if value.Num == 0 && value.Raw == \"-0\" { valid = false return false } return true }",
+  "res.ForEach(iter)",
+  "if !valid {",
+  "return ErrCanonicalJSON",
+  "}",
+  "return nil"
+]
+
 def signing__ListKeyIDs : List String := [
   "func func(signingName string, message []byte) ([]KeyID, error)",
   "var members map[string]json.RawMessage",
@@ -110,6 +351,62 @@ def signing__VerifyJSON : List String := [
   "return nil"
 ]
 
-def functions : List String := ["signing.go:.ListKeyIDs", "signing.go:.SignJSON", "signing.go:.VerifyJSON"]
+def spec_base64_Base64Bytes_Decode : List String := [
+  "func func(str string) error",
+  "var err error",
+  "if strings.ContainsAny(str, \"-_\") {",
+  "*b64, err = base64.RawURLEncoding.DecodeString(str)",
+  "} else {",
+  "*b64, err = base64.RawStdEncoding.DecodeString(str)",
+  "}",
+  "return err"
+]
+
+def spec_base64_Base64Bytes_Encode : List String := [
+  "func func() string",
+  "return base64.RawStdEncoding.EncodeToString(b64)"
+]
+
+def spec_base64_Base64Bytes_MarshalJSON : List String := [
+  "func func() ([]byte, error)",
+  "return json.Marshal(b64.Encode())"
+]
+
+def spec_base64_Base64Bytes_MarshalYAML : List String := [
+  "func func() (interface{}, error)",
+  "return b64.Encode(), nil"
+]
+
+def spec_base64_Base64Bytes_Scan : List String := [
+  "func func(src interface{}) error",
+  "switch v := src.(type) { case string: return b64.Decode(v) case []byte: *b64 = append(Base64Bytes{}, v...) return nil case RawJSON: return b64.UnmarshalJSON(v) default: return fmt.Errorf(\"unsupported source type\") }"
+]
+
+def spec_base64_Base64Bytes_UnmarshalJSON : List String := [
+  "func func(raw []byte) (err error)",
+  "var str string",
+  "if err = json.Unmarshal(raw, &str); err != nil {",
+  "return",
+  "}",
+  "err = b64.Decode(str)",
+  "return"
+]
+
+def spec_base64_Base64Bytes_UnmarshalYAML : List String := [
+  "func func(unmarshal func(interface{}) error) (err error)",
+  "var str string",
+  "if err = unmarshal(&str); err != nil {",
+  "return",
+  "}",
+  "err = b64.Decode(str)",
+  "return"
+]
+
+def spec_base64_Base64Bytes_Value : List String := [
+  "func func() (driver.Value, error)",
+  "return b64.Encode(), nil"
+]
+
+def functions : List String := ["json.go:EventJSONs.TrustedEvents", "json.go:EventJSONs.UntrustedEvents", "json.go:.CanonicalJSON", "json.go:.CanonicalJSONAssumeValid", "json.go:.CompactJSON", "json.go:.EnforcedCanonicalJSON", "json.go:.NewEventJSONsFromEvents", "json.go:.SortJSON", "json.go:.compactUnicodeEscape", "json.go:.isNegativeZeroLiteral", "json.go:.noVerifyCanonicalJSON", "json.go:.readHexDigits", "json.go:.sortJSONArray", "json.go:.sortJSONObject", "json.go:.sortJSONValue", "json.go:.verifyEnforcedCanonicalJSON", "signing.go:.ListKeyIDs", "signing.go:.SignJSON", "signing.go:.VerifyJSON", "spec/base64.go:Base64Bytes.Decode", "spec/base64.go:Base64Bytes.Encode", "spec/base64.go:Base64Bytes.MarshalJSON", "spec/base64.go:Base64Bytes.MarshalYAML", "spec/base64.go:Base64Bytes.Scan", "spec/base64.go:Base64Bytes.UnmarshalJSON", "spec/base64.go:Base64Bytes.UnmarshalYAML", "spec/base64.go:Base64Bytes.Value"]
 
 end VPins.C02
